@@ -60,6 +60,8 @@ def callee_slot_kind(repo, fn, name, at_node):
 
 
 def run(repo, run, tier):
+    from .common import readonly
+    readonly(repo, run, "C15.6", OPT, ["hybrj", "newtontrustregion", "nonlinear_roots"], "the nonlinear solvers")
     run.assumptions += ["NOT decided: the 'modest multiple' constant of the residual bound",
                         "scipy.optimize.root's own success flag is taken as given (external contract)",
                         "kinds: x, dx, dxn, trust_region, xtol are in the unit of the unknown (X); F*, Fn*, fun(.) are residuals (G)"]
